@@ -182,4 +182,4 @@ def search(ctx, deep):
             "sample": {"program": tl.render_prog([c for c in cases if not isinstance(c, tuple)][0])}}, fails
 
 def replay(obj):
-    return oracles.impl_models(obj["text"], obj.get("h", 2))
+    return oracles.replay_record(obj, 2)
